@@ -33,6 +33,8 @@ type node struct {
 	pos   string
 	acc   *accInfo
 	owner int
+	from  []int      // atomic.go: read nodes the value stored by this write node is derived from
+	frame *atomFrame // atomic.go: the innermost inlined call of an exported method the node belongs to
 }
 
 type accInfo struct {
@@ -43,21 +45,23 @@ type accInfo struct {
 }
 
 type pkgResult struct {
-	Name     string             `json:"name"`
-	Dir      string             `json:"dir"`
-	Mutexes  []string           `json:"mutexes"`
-	Fields   []string           `json:"fields"`
-	Entries  []string           `json:"entries"`
-	Nodes    int                `json:"nodes"`
-	Accesses map[string]accInfo `json:"accesses"` // node index -> info
-	Notes    []string           `json:"notes"`
-	Groups   []string           `json:"groups"`    // group id -> description
-	Single   []bool             `json:"single"`    // group id -> at most one thread
-	Pos      []string           `json:"positions"` // node index -> file:line ("" when none)
-	Instrs   []string           `json:"instrs"`    // node index -> instruction text
-	nodes    []node
-	entryIDs []int
-	locals   *pkgResult // the graph of the local variables shared by goroutines (locals.go); nil if there are none
+	Name             string             `json:"name"`
+	Dir              string             `json:"dir"`
+	Mutexes          []string           `json:"mutexes"`
+	Fields           []string           `json:"fields"`
+	Entries          []string           `json:"entries"`
+	Nodes            int                `json:"nodes"`
+	Accesses         map[string]accInfo `json:"accesses"` // node index -> info
+	Notes            []string           `json:"notes"`
+	Groups           []string           `json:"groups"`            // group id -> description
+	Single           []bool             `json:"single"`            // group id -> at most one thread
+	Pos              []string           `json:"positions"`         // node index -> file:line ("" when none)
+	Instrs           []string           `json:"instrs"`            // node index -> instruction text
+	Derived          [][2]int           `json:"derived"`           // atomic.go: (read node, write node) of one field, the written value derived from the read
+	DerivedComposite [][2]int           `json:"derived_composite"` // atomic.go: such pairs whose write is in an inlined exported method that does not contain the read
+	nodes            []node
+	entryIDs         []int
+	locals           *pkgResult // the graph of the local variables shared by goroutines (locals.go); nil if there are none
 }
 
 var asyncAPIs = map[string]bool{
@@ -79,6 +83,7 @@ type fnCtx struct {
 	funcs     map[string]*ast.FuncLit    // local identifier -> function literal bound to it (x := func(..) {..})
 	loopDepth int                        // loops/switches open in the callers (inlined methods)
 	lc        *locCtx                    // locals mode (locals.go): the walk of one thread body
+	at        *atomCtx                   // value derivation (atomic.go)
 }
 
 func (fc *fnCtx) inLoop() bool { return fc.loopDepth+len(fc.breaks) > 0 }
@@ -98,6 +103,7 @@ type builder struct {
 	curGroup     int
 	weakExported bool
 	loc          *localsState // non-nil: locals mode (locals.go)
+	atom         atomState    // value derivation (atomic.go)
 }
 
 type pendingEntry struct {
@@ -115,7 +121,7 @@ func (b *builder) pos(n ast.Node) string {
 
 func (b *builder) emit(instr string, frontier []int, at ast.Node) []int {
 	id := len(b.res.nodes)
-	nd := node{instr: instr, owner: b.curGroup}
+	nd := node{instr: instr, owner: b.curGroup, frame: b.atom.frame}
 	if at != nil {
 		nd.pos = b.pos(at)
 	}
@@ -168,6 +174,9 @@ func (b *builder) access(field string, write bool, frontier []int, at ast.Node, 
 	}
 	f := b.emit(fmt.Sprintf("IAcc %d %s", b.fieldID[field], w), frontier, at)
 	b.res.nodes[f[0]].acc = &accInfo{Field: field, Write: write, Pos: b.pos(at), Entry: fc.entry}
+	if write {
+		b.atomWrote(f[0])
+	}
 	return f
 }
 
@@ -237,10 +246,12 @@ func (b *builder) expr(e ast.Expr, frontier []int, fc *fnCtx) []int {
 	case *ast.FuncLit:
 		// a function value not called here: treated as possibly executed at this point, any number of times
 		head := b.emit("ISkip", frontier, x)
-		sub := &fnCtx{recv: fc.recv, stack: fc.stack, entry: fc.entry, labels: map[string]int{}, alias: fc.alias, ctor: fc.ctor, funcs: fc.funcs, lc: fc.lc}
+		sub := &fnCtx{recv: fc.recv, stack: fc.stack, entry: fc.entry, labels: map[string]int{}, alias: fc.alias, ctor: fc.ctor, funcs: fc.funcs, lc: fc.lc, at: b.atomOf(fc)}
+		b.atomLoop(fc, 1)
 		out := b.block(x.Body, head, sub)
 		out = append(out, sub.returns...)
 		b.link(out, head[0])
+		b.atomLoop(fc, -1)
 		return head
 	case *ast.BinaryExpr:
 		frontier = b.expr(x.X, frontier, fc)
@@ -274,6 +285,7 @@ func (b *builder) expr(e ast.Expr, frontier []int, fc *fnCtx) []int {
 }
 
 func (b *builder) call(call *ast.CallExpr, frontier []int, fc *fnCtx, isGo bool) []int {
+	defer b.atomCall(call, fc, b.atomMark())
 	if instr, ok := b.mutexCall(call, fc); ok {
 		return b.emit(instr, frontier, call)
 	}
@@ -318,7 +330,9 @@ func (b *builder) call(call *ast.CallExpr, frontier []int, fc *fnCtx, isGo bool)
 		sig = b.locSignature(call, fc)
 	}
 	// arguments
+	argT := make([]atomVal, len(call.Args))
 	for ai, a := range call.Args {
+		mk := b.atomMark()
 		if sig != nil && b.locBindable(sig, ai, a, fc) {
 			continue
 		}
@@ -359,6 +373,7 @@ func (b *builder) call(call *ast.CallExpr, frontier []int, fc *fnCtx, isGo bool)
 			}
 		}
 		frontier = b.expr(a, frontier, fc)
+		argT[ai] = b.atomReads(fc, mk, a)
 	}
 	switch f := call.Fun.(type) {
 	case *ast.FuncLit:
@@ -375,6 +390,7 @@ func (b *builder) call(call *ast.CallExpr, frontier []int, fc *fnCtx, isGo bool)
 			b.addEntryG(fmt.Sprintf("go@%s", b.pos(f)), f.Body, fc.recv, "", -1, fc.ctor && !fc.inLoop())
 			return frontier
 		}
+		b.atomBind(f.Type, argT, b.atomOf(fc), false)
 		return b.inlineBody(f.Body, frontier, fc, "")
 	case *ast.SelectorExpr:
 		if id, ok := f.X.(*ast.Ident); ok && fc.recv[id.Name] {
@@ -391,7 +407,7 @@ func (b *builder) call(call *ast.CallExpr, frontier []int, fc *fnCtx, isGo bool)
 					b.addEntryG(f.Sel.Name, nil, nil, f.Sel.Name, -1, fc.ctor && !fc.inLoop())
 					return frontier
 				}
-				return b.inlineMethod(m, frontier, fc)
+				return b.inlineMethod(m, frontier, fc, argT)
 			}
 			if b.fields[f.Sel.Name] {
 				// calling a function-typed field: a read of the field
@@ -415,7 +431,7 @@ func recvName(m *ast.FuncDecl) string {
 	return "_"
 }
 
-func (b *builder) inlineMethod(m *ast.FuncDecl, frontier []int, fc *fnCtx) []int {
+func (b *builder) inlineMethod(m *ast.FuncDecl, frontier []int, fc *fnCtx, argT []atomVal) []int {
 	if m.Body == nil {
 		return frontier
 	}
@@ -430,12 +446,18 @@ func (b *builder) inlineMethod(m *ast.FuncDecl, frontier []int, fc *fnCtx) []int
 		return frontier
 	}
 	sub := &fnCtx{recv: map[string]bool{recvName(m): true}, stack: append(append([]string{}, fc.stack...), m.Name.Name), entry: fc.entry, labels: map[string]int{}, alias: map[string]map[string]bool{}, ctor: fc.ctor, loopDepth: fc.loopDepth + len(fc.breaks), lc: fc.lc}
-	return b.finishFn(m.Body, frontier, sub)
+	defer b.atomInlined(m.Name.Name)()
+	b.atomBind(m.Type, argT, b.atomOf(sub), true)
+	out := b.finishFn(m.Body, frontier, sub)
+	b.atomLeave(m.Type, sub)
+	return out
 }
 
 func (b *builder) inlineBody(body *ast.BlockStmt, frontier []int, fc *fnCtx, _ string) []int {
-	sub := &fnCtx{recv: fc.recv, stack: fc.stack, entry: fc.entry, labels: map[string]int{}, alias: fc.alias, ctor: fc.ctor, funcs: fc.funcs, lc: fc.lc, loopDepth: fc.loopDepth + len(fc.breaks)}
-	return b.finishFn(body, frontier, sub)
+	sub := &fnCtx{recv: fc.recv, stack: fc.stack, entry: fc.entry, labels: map[string]int{}, alias: fc.alias, ctor: fc.ctor, funcs: fc.funcs, lc: fc.lc, loopDepth: fc.loopDepth + len(fc.breaks), at: b.atomOf(fc)}
+	out := b.finishFn(body, frontier, sub)
+	b.atomLeave(nil, sub)
+	return out
 }
 
 // finishFn translates a function body; the result frontier is where control continues after the call
@@ -585,6 +607,7 @@ func (b *builder) stmtL(s ast.Stmt, frontier []int, fc *fnCtx, label string) []i
 	case *ast.ExprStmt:
 		return b.expr(x.X, frontier, fc)
 	case *ast.AssignStmt:
+		mk := b.atomMark()
 		for _, r := range x.Rhs {
 			frontier = b.expr(r, frontier, fc)
 		}
@@ -652,17 +675,23 @@ func (b *builder) stmtL(s ast.Stmt, frontier []int, fc *fnCtx, label string) []i
 			}
 			frontier = b.assignTarget(l, frontier, fc)
 		}
+		b.atomAssign(fc, mk, x.Lhs, x.Rhs, x.Tok != token.ASSIGN && x.Tok != token.DEFINE)
 		return frontier
 	case *ast.IncDecStmt:
+		mk := b.atomMark()
 		frontier = b.expr(x.X, frontier, fc)
-		return b.assignTarget(x.X, frontier, fc)
+		frontier = b.assignTarget(x.X, frontier, fc)
+		b.atomAssign(fc, mk, []ast.Expr{x.X}, nil, true)
+		return frontier
 	case *ast.DeclStmt:
 		if gd, ok := x.Decl.(*ast.GenDecl); ok {
 			for _, sp := range gd.Specs {
 				if vs, ok := sp.(*ast.ValueSpec); ok {
+					mk := b.atomMark()
 					for _, v := range vs.Values {
 						frontier = b.expr(v, frontier, fc)
 					}
+					b.atomDecl(fc, mk, vs)
 					if b.loc != nil {
 						for _, nm := range vs.Names {
 							b.locDeclare(nm, fc)
@@ -682,9 +711,11 @@ func (b *builder) stmtL(s ast.Stmt, frontier []int, fc *fnCtx, label string) []i
 		fc.defers = append(fc.defers, x.Call)
 		return frontier
 	case *ast.ReturnStmt:
+		mk := b.atomMark()
 		for _, r := range x.Results {
 			frontier = b.expr(r, frontier, fc)
 		}
+		b.atomReturn(fc, mk, x.Results)
 		frontier = b.runDefers(frontier, fc, len(fc.defers))
 		fc.returns = append(fc.returns, frontier...)
 		return nil
@@ -725,12 +756,15 @@ func (b *builder) stmtL(s ast.Stmt, frontier []int, fc *fnCtx, label string) []i
 		}
 		frontier = b.expr(x.Cond, frontier, fc)
 		nd := len(fc.defers)
+		b.atomIf(0)
+		defer b.atomIf(2)
 		thenOut := b.block(x.Body, frontier, fc)
 		if len(thenOut) == 0 {
 			fc.defers = fc.defers[:nd]
 		} else if len(fc.defers) != nd {
 			b.note("conditional defer in if-body at %s treated as always pending", b.pos(x))
 		}
+		b.atomIf(1)
 		var elseOut []int
 		if x.Else != nil {
 			nd2 := len(fc.defers)
@@ -746,6 +780,8 @@ func (b *builder) stmtL(s ast.Stmt, frontier []int, fc *fnCtx, label string) []i
 		if x.Init != nil {
 			frontier = b.stmt(x.Init, frontier, fc)
 		}
+		b.atomLoop(fc, 1)
+		defer b.atomLoop(fc, -1)
 		head := b.emit("ISkip", frontier, x)
 		condOut := b.expr(x.Cond, head, fc)
 		br, ct := b.pushLoop(fc, label)
@@ -770,7 +806,10 @@ func (b *builder) stmtL(s ast.Stmt, frontier []int, fc *fnCtx, label string) []i
 		}
 		return out
 	case *ast.RangeStmt:
+		mk := b.atomMark()
 		frontier = b.expr(x.X, frontier, fc)
+		b.atomLoop(fc, 1)
+		defer b.atomLoop(fc, -1)
 		if b.loc != nil && x.Tok == token.DEFINE {
 			if id, ok := x.Key.(*ast.Ident); ok {
 				b.locDeclareIter(id, fc)
@@ -796,6 +835,7 @@ func (b *builder) stmtL(s ast.Stmt, frontier []int, fc *fnCtx, label string) []i
 		if x.Value != nil && x.Tok == token.ASSIGN {
 			body = b.assignTarget(x.Value, body, fc)
 		}
+		b.atomAssign(fc, mk, []ast.Expr{x.Key, x.Value}, []ast.Expr{x.X}, false)
 		bodyOut := b.block(x.Body, body, fc)
 		b.popLoop(fc)
 		bodyOut = append(bodyOut, *ct...)
@@ -1083,6 +1123,7 @@ func analysePackage(repo, dir, typeName string) (*pkgResult, error) {
 		for i := 0; i < len(b.pending); i++ {
 			pe := b.pending[i]
 			b.curGroup = pe.group
+			b.atomReset()
 			start := b.emit("ISkip", nil, nil)
 			fc := &fnCtx{labels: map[string]int{}, entry: pe.name, group: pe.group, alias: map[string]map[string]bool{}}
 			var body *ast.BlockStmt
@@ -1118,6 +1159,7 @@ func analysePackage(repo, dir, typeName string) (*pkgResult, error) {
 	res.Notes = nil
 	build()
 	res.Nodes = len(res.nodes)
+	res.Derived, res.DerivedComposite = derivedPairs(res.nodes)
 	for _, n := range res.nodes {
 		res.Pos = append(res.Pos, n.pos)
 		res.Instrs = append(res.Instrs, n.instr)
@@ -1158,6 +1200,7 @@ func main() {
 	out := flag.String("out", "", "output .v file")
 	meta := flag.String("meta", "", "output .json file with names and positions")
 	skips := flag.String("skip", "", "JSON file: [{package, field}] fields excluded from the conflict check (known findings)")
+	showDerived := flag.Bool("derived", false, "list the derived pairs (atomic.go) of every service on stderr, with field, positions and SPLIT when an unlock lies between them")
 	withLocals := flag.Bool("locals", true, "also extract, per package, the graph of the local variables shared by goroutines (<package>_locals)")
 	flag.Parse()
 	noLocals = !*withLocals
@@ -1203,6 +1246,12 @@ func main() {
 			rs = append(rs, r.locals)
 		}
 		for _, r := range rs {
+			if r.Derived == nil {
+				r.Derived, r.DerivedComposite = [][2]int{}, [][2]int{} // a locals graph has none
+			}
+			if *showDerived {
+				printDerived(os.Stderr, r)
+			}
 			results = append(results, r)
 			names = append(names, r.Name)
 			fmt.Fprintf(&sb, "(* %s: mutexes %v; %d entries; %d nodes *)\n", r.Dir, r.Mutexes, len(r.Entries), len(r.nodes))
@@ -1263,6 +1312,8 @@ func main() {
 		fmt.Fprintf(&sb, "  (\"%s\"%%string, g_%s, entries_%s, skip_%s, single_%s)%s\n", n, n, n, n, n, sep)
 	}
 	sb.WriteString("].\n")
+	sb.WriteString(derivedDefinition(results, false))
+	sb.WriteString(derivedDefinition(results, true))
 	if *out != "" {
 		if err := os.WriteFile(*out, []byte(sb.String()), 0o644); err != nil {
 			fmt.Fprintln(os.Stderr, err)
